@@ -30,12 +30,12 @@ type Exit struct {
 type loopInfo struct {
 	header *ssa.BasicBlock
 	blocks map[*ssa.BasicBlock]bool
-	ord    int // 1-based ordinal in source order
-	backs  int // back edges seen so far
+	ord    int    // 1-based ordinal in source order
+	backs  int    // back edges seen so far
+	headSt *State // state at the loop head of the arbitrary iteration (after havoc and assumptions)
 }
 
 type Frame struct {
-	guardN     int // ordinal of guarded-field accesses
 	vc         *VC
 	id         int
 	fn         *ssa.Function
@@ -305,7 +305,7 @@ func (fr *Frame) edge(in map[*ssa.BasicBlock][]edgeIn, from, to *ssa.BasicBlock,
 	if to.Dominates(from) {
 		// back edge: loop invariants must be preserved
 		li := fr.loops[to]
-		fr.loopBack(st, li)
+		fr.loopBack(st, li, from)
 		return
 	}
 	in[to] = append(in[to], edgeIn{pred: from, st: st})
